@@ -258,8 +258,6 @@ pub fn extract_game_parts_from_name(game: &str) -> GameNameParsed {
 
     let mut number_accumulator: Option<String> = None;
 
-    // Filter map necessary to move out words
-    #[allow(clippy::unnecessary_filter_map)]
     let game_name_words: Vec<_> = game
         // First split all text on space or dash
         .split_inclusive(&[' ', '-'])
@@ -285,32 +283,26 @@ pub fn extract_game_parts_from_name(game: &str) -> GameNameParsed {
         .filter(|w| !w.trim_matches('-').is_empty())
         // Combine numbers that are seperated by dashes
         // e.g. 44-45 = 4445
-        // Panics if there is text after number with trailing dash (44-text)
-        .filter_map(|w| {
-            if number_accumulator.is_some() {
+        // If text follows a number with a trailing dash (44-text) the number is a word of its own
+        .flat_map(|w| {
+            if let Some(accumulated) = number_accumulator.take() {
                 if let Some(maybe_number) = w.strip_suffix('-') {
                     if maybe_number.chars().all(|c| c.is_ascii_digit()) {
-                        number_accumulator.as_mut().unwrap().push_str(maybe_number);
-                        return None;
-                    } else {
-                        panic!("Text after number-");
+                        number_accumulator = Some(accumulated + maybe_number);
+                        return vec![];
                     }
                 } else if w.chars().all(|c| c.is_ascii_digit()) {
-                    let mut accumulator = number_accumulator.as_ref().unwrap().clone();
-                    number_accumulator = None;
-                    accumulator.push_str(&w);
-                    return Some(accumulator);
-                } else {
-                    panic!("Text after number-");
+                    return vec![accumulated + &w];
                 }
+                return vec![accumulated, w];
             } else if let Some(maybe_number) = w.strip_suffix('-') {
                 if maybe_number.chars().all(|c| c.is_ascii_digit()) {
                     number_accumulator = Some(maybe_number.to_string());
-                    return None;
+                    return vec![];
                 }
             }
 
-            Some(w)
+            vec![w]
         })
         .collect();
 
